@@ -564,6 +564,9 @@ func countOverlaps(ops []porcupine.Operation) int {
 
 // diagnoseEvm: checks that hold whatever the interleaving was; they name the class of an illegal history.
 func diagnoseEvm(txs []*txInfo, ops []porcupine.Operation) string {
+	if d := diagnoseDuplicate(txs, ops); d != "" {
+		return d
+	}
 	for _, o := range ops {
 		in, ou := o.Input.(cin), o.Output.(cout)
 		if in.Kind != "reap" {
@@ -640,6 +643,66 @@ func diagnoseEvm(txs []*txInfo, ops []porcupine.Operation) string {
 				return "offer-of-unaccepted-tx"
 			}
 		}
+	}
+	return ""
+}
+
+// diagnoseDuplicate: the same bytes accepted twice in a history without flush, no commit containing the
+// transaction overlapping or between the two submissions, and its nonce not passed by the state by then.
+func diagnoseDuplicate(txs []*txInfo, ops []porcupine.Operation) string {
+	for _, o := range ops {
+		if o.Input.(cin).Kind == "flush" {
+			return ""
+		}
+	}
+	type iv struct{ call, ret int64 }
+	acc := map[int][]iv{}
+	for _, o := range ops {
+		in, ou := o.Input.(cin), o.Output.(cout)
+		if in.Kind == "submit" && ou.OK {
+			acc[in.Tx] = append(acc[in.Tx], iv{o.Call, o.Return})
+		}
+	}
+	for id, l := range acc {
+		if len(l) < 2 {
+			continue
+		}
+		lo, hi := l[0].call, l[0].ret
+		for _, x := range l[:2] {
+			if x.call < lo {
+				lo = x.call
+			}
+			if x.ret > hi {
+				hi = x.ret
+			}
+		}
+		separated := false
+		var nonces [4]uint64
+		for _, o := range ops {
+			in := o.Input.(cin)
+			if in.Kind != "commit" {
+				continue
+			}
+			if o.Call < hi {
+				nonces = o.Output.(cout).Nonces
+				if o.Return > lo {
+					for _, b := range in.Block {
+						if b == id {
+							separated = true
+						}
+					}
+				}
+			}
+		}
+		if separated {
+			continue
+		}
+		if txs != nil {
+			if t := txs[id]; t.Acct >= 0 && t.Nonce < nonces[t.Acct] {
+				continue
+			}
+		}
+		return "duplicate-of-pooled-tx-accepted"
 	}
 	return ""
 }
@@ -861,11 +924,13 @@ func (c *concMem) history(hid int64) {
 		diag := diagnoseMem(ops)
 		if diag == "" {
 			diag = "unclassified"
-			if withFlush {
-				diag = "flush-overlapping-submissions"
-			}
 		}
-		c.rep.violation("conc:mempool:not-linearizable:"+diag, "no sequential order of the recorded operations consistent with their call/return times is legal for the FIFO mempool model ("+diag+")", trace,
+		key := "conc:mempool:not-linearizable:" + diag
+		if withFlush {
+			// Flush is not atomic with respect to ReceiveTx (which takes no mempool lock): one class, whatever the symptom
+			key = "conc:mempool:not-linearizable:flush-overlapping-submissions"
+		}
+		c.rep.violation(key, "no sequential order of the recorded operations consistent with their call/return times is legal for the FIFO mempool model ("+diag+")", trace,
 			map[string]interface{}{"history_id": fmt.Sprintf("conc-mem/%d", hid), "submitters": nsub, "with_flush": withFlush})
 	}
 	if res == porcupine.Ok {
@@ -889,9 +954,6 @@ func diagnoseMem(ops []porcupine.Operation) string {
 		}
 	}
 	sfx := ""
-	if flushed {
-		sfx = ":history-with-flush"
-	}
 	for _, o := range ops {
 		in, ou := o.Input.(cin), o.Output.(cout)
 		if in.Kind != "reap" {
@@ -913,6 +975,40 @@ func diagnoseMem(ops []porcupine.Operation) string {
 				for _, id := range pin.Block {
 					if seen[id] {
 						return "reoffer-after-commit-returned" + sfx
+					}
+				}
+			}
+		}
+	}
+	if d := diagnoseDuplicate(nil, ops); d != "" {
+		return d
+	}
+	// a reap lists b before a although a's accepted submission returned before b's was called
+	if !flushed {
+		type iv struct{ call, ret int64 }
+		sub := map[int]iv{}
+		multi := map[int]bool{}
+		for _, o := range ops {
+			in, ou := o.Input.(cin), o.Output.(cout)
+			if in.Kind == "submit" && ou.OK {
+				if _, dup := sub[in.Tx]; dup {
+					multi[in.Tx] = true
+				}
+				sub[in.Tx] = iv{o.Call, o.Return}
+			}
+		}
+		for _, o := range ops {
+			in, ou := o.Input.(cin), o.Output.(cout)
+			if in.Kind != "reap" {
+				continue
+			}
+			for i := range ou.List {
+				for j := i + 1; j < len(ou.List); j++ {
+					b, a := ou.List[i], ou.List[j]
+					sa, oka := sub[a]
+					sb, okb := sub[b]
+					if oka && okb && !multi[a] && !multi[b] && sa.ret < sb.call {
+						return "order-not-fifo"
 					}
 				}
 			}
